@@ -389,6 +389,40 @@ func c20Read(c *Ctx) {
 				if len(truth) >= 2 {
 					k.Nontrivial(text)
 				}
+				if j == 0 {
+					// A line that holds nothing but blanks (spaces, a TAB, a form feed, a stray CR), anywhere in the
+					// text: whether such a line counts as empty the statement does not say, so either answer is taken —
+					// the table as it is, or an error and no matrix — but not a panic and not another table.
+					ls := bytes.SplitAfter(text, []byte("\n"))
+					at := r.IntN(len(ls) + 1)
+					blank := pick(r, []string{" ", "\t", " \t ", "\f", "\v", "\r", "  \r", "\u00a0", "\xc2\x85"}) + pick(r, []string{"\n", "\r\n"})
+					var t2 []byte
+					for li, l := range ls {
+						if li == at {
+							t2 = append(t2, blank...)
+						}
+						t2 = append(t2, l...)
+					}
+					if at == len(ls) {
+						if len(t2) > 0 && t2[len(t2)-1] != '\n' {
+							t2 = append(t2, '\n')
+						}
+						t2 = append(t2, strings.TrimRight(blank, "\r\n")...)
+					}
+					k.Input("text", func() string { return describeText(t2) })
+					m2, err2 := smtext.ReadNCBI(bytes.NewReader(t2))
+					switch {
+					case err2 != nil && len(m2) != 0:
+						k.Failf("partial-matrix", "ReadNCBI returned an error together with a partial matrix for a table with a blank-only line (%q)", blank)
+						return
+					case err2 == nil:
+						if d := sameMatrix(m2, truth); d != "" {
+							k.Failf("readncbi", "ReadNCBI accepted a table with a blank-only line (%q) but the result differs from the table: %s", blank, d)
+							return
+						}
+					}
+					k.Count("tables_with_a_blank_only_line", 1)
+				}
 			}
 			if bytes.IndexByte(t.rows, '*') >= 0 || bytes.IndexByte(t.cols, '*') >= 0 {
 				k.Count("tables_with_gap_label", 1)
